@@ -25,7 +25,7 @@ from pdmesh_common import split
 PROP = "C10"
 IFACES = ["kernel", "direct", "keyword", "bumps", "sasview"]
 QUICK = ["cylinder", "sphere", "core_multi_shell", "hardsphere", "broad_peak", "parallelepiped", "onion", "lamellar",
-         "hayter_msa", "ellipsoid", "stacked_disks", "core_shell_sphere", "rpa"]
+         "hayter_msa", "ellipsoid", "stacked_disks", "core_shell_sphere", "rpa", "line"]
 
 
 def all_models():
@@ -67,7 +67,14 @@ def run(chk, args):
         rng.shuffle(sel)
         for c in (sel if thorough else sel[:120]):
             tid += 1
-            scen.append({"tid": tid, "kind": "select", "model": rng.choice(["sphere", "cylinder"]), "case": c})
+            sc = {"tid": tid, "kind": "select", "model": rng.choice(["sphere", "cylinder"]), "case": c}
+            # q vectors are not always stored in increasing order (two detector banks, a reversed scan) and the window
+            # is often left at the data object's default
+            if tid % 3 == 0:
+                sc["order"] = rng.choice([[3, 2, 1, 0], [2, 3, 0, 1], [1, 0, 3, 2], [0, 2, 1, 3]])
+            if tid % 2 == 0:
+                sc["default_window"] = True
+            scen.append(sc)
     work = vlib.scratch("c10")
     try:
         outs = vlib.run_workers_parallel("w_interfaces.py", [{"scenarios": p} for p in split(scen, vlib.NCPU)], work, timeout=3000)
